@@ -1080,6 +1080,20 @@ def file_inventory(path, whole_text=False):
         inv["text_sha256"] = hashlib.sha256(norm(txt).encode()).hexdigest()
     return inv
 TRAITS_FILES = [REPO + "/crates/traits/src/" + f_ for f_ in ("lib.rs", "filter.rs", "source.rs", "sink.rs", "finalize.rs")]
+def build_inventory():
+    """what decides HOW the sources are compiled: section headers of the workspace manifest, the [dependencies] / [features]
+    tables of every crate manifest, and the presence of files that change a build behind the sources' back"""
+    norm = lambda t: " ".join(t.split())
+    inv = {"workspace_sections": re.findall(r"(?m)^\s*(\[[^\]]+\])", open(REPO + "/Cargo.toml").read())}
+    for c_ in sorted(os.listdir(REPO + "/crates")):
+        mf = os.path.join(REPO, "crates", c_, "Cargo.toml")
+        if not os.path.isfile(mf): continue
+        txt = open(mf).read()
+        secs = re.split(r"(?m)^(?=\[)", txt)
+        inv["crate:" + c_] = sorted(norm(re.sub(r"(?m)#.*$", "", x_)) for x_ in secs if re.match(r"\[(?:dependencies|features|build-dependencies|target\.|lib|patch|replace|profile)", x_))
+    inv["extra_build_files"] = sorted(f_ for f_ in [".cargo/config.toml", ".cargo/config", "rust-toolchain", "rust-toolchain.toml", "build.rs"] + ["crates/%s/build.rs" % c_ for c_ in os.listdir(REPO + "/crates")]
+                                      if os.path.exists(os.path.join(REPO, f_)))
+    return inv
 def files_of(pid):
     fs = {e_["file"] for e_ in ENTRIES.get(pid, [])} | {a_["file"] for a_ in ASSERTS.get(pid, []) if a_.get("file")}
     return sorted(f_ for f_ in fs if f_.startswith(REPO) and f_.endswith(".rs"))
@@ -1089,6 +1103,7 @@ def write_inventory():
     for pid in sorted(set(ENTRIES) | set(ASSERTS)):
         for f_ in files_of(pid): inv[f_[len(REPO):]] = file_inventory(f_)
     for f_ in TRAITS_FILES: inv[f_[len(REPO):]] = file_inventory(f_, whole_text=True)
+    inv["/build"] = build_inventory()
     json.dump(inv, open(INVENTORY_FILE, "w"), indent=0, sort_keys=True)
     print("inventory of %d files written to %s" % (len(inv), INVENTORY_FILE))
 def inventory_asserts():
@@ -1096,6 +1111,8 @@ def inventory_asserts():
     if not os.path.exists(INVENTORY_FILE): return
     inv = json.load(open(INVENTORY_FILE))
     for pid in sorted(set(ENTRIES) | set(ASSERTS)):
+        ASSERTS.setdefault(pid, []).append(dict(name="build_configuration", file=REPO + "/Cargo.toml", build=inv.get("/build"),
+            message="the build configuration differs from the audited one (workspace manifest sections, a crate's [dependencies]/[features], or a new .cargo/config, rust-toolchain or build.rs)"))
         for f_ in files_of(pid) + TRAITS_FILES:
             rel = f_[len(REPO):]
             ASSERTS.setdefault(pid, []).append(dict(name="api_surface_" + rel.replace("/crates/", "").replace("/src/", "_").replace("/", "_").replace(".rs", ""),
@@ -1399,7 +1416,12 @@ def regenerate(pid, ROOT, BUILD):
             if a.get("strip"):
                 from rs2coq import strip_comments as _sc
                 txt = _sc(txt).split("#[cfg(test)]")[0]
-            if "inventory" in a:
+            if "build" in a:
+                cur_ = build_inventory()
+                ok_inv = a["build"] is not None and cur_ == a["build"]
+                if not ok_inv and a["build"] is not None:
+                    a = dict(a, message=a["message"] + ": " + " | ".join("%s: %s (audited: %s)" % (k_, str(cur_.get(k_))[:150], str(a["build"].get(k_))[:150]) for k_ in sorted(set(cur_) | set(a["build"])) if cur_.get(k_) != a["build"].get(k_))[:700])
+            elif "inventory" in a:
                 cur_ = file_inventory(a["file"], whole_text="text_sha256" in (a["inventory"] or {}))
                 ok_inv = a["inventory"] is not None and cur_ == a["inventory"]
                 if not ok_inv and a["inventory"] is not None:
